@@ -9,6 +9,7 @@ import (
 	"go/token"
 	"go/types"
 	"math"
+	"math/bits"
 	"regexp"
 	"sort"
 	"strconv"
@@ -106,9 +107,7 @@ func init() {
 		"bytes.Equal":                    extBytesEqual,
 
 		"sort.Slice":       extSortSlice,
-		"sort.SliceStable": extSortSlice,
-		"sort.Sort":        extSortSort,
-		"sort.Stable":      extSortSort,
+		"sort.SliceStable": extSortSliceStable,
 		"sort.Strings":     extSortStrings,
 		"sort.Ints":        extSortInts,
 
@@ -607,6 +606,22 @@ func extStringsRepeat(fr *frame, args []value) value {
 }
 
 func extStringsSplit(fr *frame, args []value) value {
+	if r, ok := args[0].(*rope); ok && r.hasOnlyFixed() {
+		if sep, ok := args[1].(string); ok && len(sep) == 1 {
+			// split on a one-byte separator: one two-way fork per symbolic byte
+			bs := r.toBytes(fr)
+			var out []value
+			start := 0
+			for i, b := range bs {
+				if truth(fr, symEq(fr, types.Typ[types.Uint8], b, sep[0])) {
+					out = append(out, bytesToRope(fr, bs[start:i]))
+					start = i + 1
+				}
+			}
+			out = append(out, bytesToRope(fr, bs[start:]))
+			return out
+		}
+	}
 	res := strings.Split(concStr(fr, args[0]), concStr(fr, args[1]))
 	out := make([]value, len(res))
 	for i, s := range res {
@@ -616,6 +631,35 @@ func extStringsSplit(fr *frame, args []value) value {
 }
 
 func extStringsTrimSpace(fr *frame, args []value) value {
+	if r, ok := args[0].(*rope); ok && r.hasOnlyFixed() {
+		// ASCII whitespace on symbolic bytes; non-ASCII bytes stop the trim
+		bs := r.toBytes(fr)
+		px := fr.i.px
+		isSp := func(b value) bool {
+			switch x := b.(type) {
+			case byte:
+				return x == ' ' || (x >= 9 && x <= 13)
+			case symInt:
+				a := &px.ar
+				c := a.Or(a.Eq(x.t, a.Const(8, ' ')), a.And(a.Cmp(OpUle, a.Const(8, 9), x.t), a.Cmp(OpUle, x.t, a.Const(8, 13))))
+				fr.noteSymBranch()
+				return px.forkBool(c)
+			}
+			return false
+		}
+		lo, hi := 0, len(bs)
+		for lo < hi && isSp(bs[lo]) {
+			lo++
+		}
+		for hi > lo && isSp(bs[hi-1]) {
+			hi--
+		}
+		// multi-byte Unicode spaces (U+0085, U+00A0, ...) at the ends are not trimmed symbolically
+		if lo == hi {
+			return ""
+		}
+		return bytesToRope(fr, bs[lo:hi])
+	}
 	if r, ok := args[0].(*rope); ok {
 		// only trims literal ends
 		parts := append([]ropePart{}, r.parts...)
@@ -636,8 +680,37 @@ func extStringsTrimSpace(fr *frame, args []value) value {
 }
 
 func extStringsTrimRightFunc(fr *frame, args []value) value {
-	s := concStr(fr, args[0])
 	f := args[1]
+	if r, ok := args[0].(*rope); ok && r.hasOnlyFixed() {
+		bs := r.toBytes(fr)
+		n := len(bs)
+		px := fr.i.px
+		for n > 0 {
+			b := bs[n-1]
+			var rn value
+			if cb, ok := b.(byte); ok {
+				if cb >= 0x80 {
+					break // multi-byte tail: handled concretely below
+				}
+				rn = rune(cb)
+			} else {
+				sb := b.(symInt)
+				if !px.forkBool(px.ar.Cmp(OpUlt, sb.t, px.ar.Const(8, 0x80))) {
+					break
+				}
+				rn = wrapInt(px.ar.ZExt(sb.t, 32), types.Int32)
+			}
+			if !truth(fr, call(fr.i, fr, token.NoPos, f, []value{rn})) {
+				return bytesToRope(fr, bs[:n])
+			}
+			n--
+		}
+		if n == 0 {
+			return ""
+		}
+		args = []value{bytesToRope(fr, bs[:n]), f}
+	}
+	s := concStr(fr, args[0])
 	return strings.TrimRightFunc(s, func(r rune) bool {
 		res := call(fr.i, fr, token.NoPos, f, []value{r})
 		switch b := res.(type) {
@@ -838,41 +911,42 @@ func truth(fr *frame, v value) bool {
 	panic(fmt.Sprintf("truth: %T", v))
 }
 
+// sort.Slice runs the real (interpreted) pdqsort_func of package sort with
+// the caller's less closure and an engine-native swapper, so the order of
+// equal elements is the one the Go library produces.  sort.Sort/Stable are
+// interpreted directly.
 func extSortSlice(fr *frame, args []value) value {
 	x := args[0].(iface).v.([]value)
 	less := args[1]
-	for i := 1; i < len(x); i++ {
-		for j := i; j > 0; j-- {
-			if !truth(fr, call(fr.i, fr, token.NoPos, less, []value{j, j - 1})) {
-				break
-			}
-			x[j], x[j-1] = x[j-1], x[j]
-		}
+	swap := nativeFn(func(fr *frame, a []value) value {
+		i, j := a[0].(int), a[1].(int)
+		x[i], x[j] = x[j], x[i]
+		return nil
+	})
+	pkg := fr.i.prog.ImportedPackage("sort")
+	fn := pkg.Func("pdqsort_func")
+	if fn == nil {
+		fr.i.px.abort("engine", "sort.pdqsort_func not found")
 	}
+	n := len(x)
+	call(fr.i, fr, token.NoPos, fn, []value{structure{less, swap}, 0, n, bits.Len(uint(n))})
 	return nil
 }
 
-func extSortSort(fr *frame, args []value) value {
-	it := args[0].(iface)
-	meth := func(name string) *ssa.Function {
-		ms := fr.i.prog.MethodSets.MethodSet(it.t)
-		for k := 0; k < ms.Len(); k++ {
-			if ms.At(k).Obj().Name() == name {
-				return fr.i.prog.MethodValue(ms.At(k))
-			}
-		}
-		panic("sort.Sort: no method " + name)
+func extSortSliceStable(fr *frame, args []value) value {
+	x := args[0].(iface).v.([]value)
+	less := args[1]
+	swap := nativeFn(func(fr *frame, a []value) value {
+		i, j := a[0].(int), a[1].(int)
+		x[i], x[j] = x[j], x[i]
+		return nil
+	})
+	pkg := fr.i.prog.ImportedPackage("sort")
+	fn := pkg.Func("stable_func")
+	if fn == nil {
+		fr.i.px.abort("engine", "sort.stable_func not found")
 	}
-	n := call(fr.i, fr, token.NoPos, meth("Len"), []value{it.v}).(int)
-	lessF, swapF := meth("Less"), meth("Swap")
-	for i := 1; i < n; i++ {
-		for j := i; j > 0; j-- {
-			if !truth(fr, call(fr.i, fr, token.NoPos, lessF, []value{it.v, j, j - 1})) {
-				break
-			}
-			call(fr.i, fr, token.NoPos, swapF, []value{it.v, j, j - 1})
-		}
-	}
+	call(fr.i, fr, token.NoPos, fn, []value{structure{less, swap}, len(x)})
 	return nil
 }
 
